@@ -348,10 +348,18 @@ func ruleGRDfw(w *World, r *Report) {
 		c, ok := in.(*ssa.Call)
 		return ok && c.Call.IsInvoke() && c.Call.Method.Name() == "Write" && strings.HasSuffix(c.Call.Value.Type().String(), "http.ResponseWriter")
 	}
+	// a phase of the request handling may be a function of its own, called by ServeHTTP alone (admission on the text, the
+	// answer from cache or upstream): its hand-offs and replies are ServeHTTP's
+	top := fn
+	phases := append([]*ssa.Function{top}, w.extractedHelpers(top)...)
 	var sites []ssa.Instruction
-	sites = append(sites, findInstrs(fn, isForward)...)
+	for _, f := range phases {
+		sites = append(sites, findInstrs(f, isForward)...)
+	}
 	nf := len(sites)
-	sites = append(sites, findInstrs(fn, isReply)...)
+	for _, f := range phases {
+		sites = append(sites, findInstrs(f, isReply)...)
+	}
 	if nf < 3 {
 		r.Und("GRD-fw", "anchor:forward-sites", w.Pos(fi.Decl.Pos()), fmt.Sprintf("expected ≥3 hand-offs to the reverse proxy in ServeHTTP, found %d", nf))
 		return
@@ -416,7 +424,10 @@ func ruleGRDfw(w *World, r *Report) {
 		r.Und("GRD-fw", "anchor:extractPrompt-func", "", "anchor lost")
 	}
 	isStatic := func(in ssa.Instruction) bool { return isModCall(in, proxyPkg, "AIProxy.checkStaticFirewall") }
-	statics := findInstrs(fn, isStatic)
+	var statics []ssa.Instruction
+	for _, f := range phases {
+		statics = append(statics, findInstrs(f, isStatic)...)
+	}
 	// the pattern loop written out in ServeHTTP itself (the helper inlined): the check is the regexp match, "blocked" is
 	// its result, and "no pattern configured" / "firewall switched off" are the scenario in which there is nothing to pass
 	inlineStatic := len(statics) == 0
@@ -454,6 +465,24 @@ func ruleGRDfw(w *World, r *Report) {
 	for i, sc := range statics {
 		c := sc.(*ssa.Call)
 		okArg := len(c.Call.Args) == 2 && c.Call.Args[1] == ssa.Value(prompt)
+		if p, isP := c.Call.Args[1].(*ssa.Parameter); !okArg && len(c.Call.Args) == 2 && isP && c.Parent() != top {
+			// the check sits in a phase function: its text parameter is fed with the prompt at every call
+			idx := -1
+			for i, hp := range c.Parent().Params {
+				if hp == p {
+					idx = i
+				}
+			}
+			nCalls := 0
+			okArg = idx >= 0
+			for _, cs := range callSitesOf(top, c.Parent()) {
+				nCalls++
+				if idx < 0 || idx >= len(cs.Call.Args) || cs.Call.Args[idx] != ssa.Value(prompt) {
+					okArg = false
+				}
+			}
+			okArg = okArg && nCalls > 0
+		}
 		r.Cond(okArg, "GRD-fw", fmt.Sprintf("static-check#%d:sees-whole-prompt", i+1), w.Pos(c.Pos()), "the pattern check is given exactly the text extractPrompt returned", "the pattern check is given something other than the full extracted prompt (a truncated, rewritten or lower-priority text): a deny pattern later in the message is not seen")
 	}
 	blockedVal := func(in ssa.Instruction) ssa.Value {
@@ -466,88 +495,149 @@ func ruleGRDfw(w *World, r *Report) {
 		return isModCall(in, proxyPkg, "AIProxy.checkFirewallWithVec") || isModCall(in, proxyPkg, "AIProxy.checkSemanticFirewall") || isModCall(in, proxyPkg, "AIProxy.checkFirewall")
 	}
 	// scenario for the semantic check: firewall on, embedding succeeded and non-empty
-	semAssume := map[edgeKey]bool{}
-	for k := range emptyEdges {
-		semAssume[k] = true
-	}
-	for _, b := range fn.Blocks {
-		for _, in := range b.Instrs {
-			switch x := in.(type) {
-			case *ssa.UnOp:
-				if _, ok := configFieldLoad(x, "FirewallEnabled"); ok {
-					_, f := condEdges(x)
-					for _, e := range f {
-						semAssume[e] = true
-					}
-				}
-			case *ssa.BinOp:
-				// no embedder configured: nothing to compare with
-				if (x.Op == token.NEQ || x.Op == token.EQL) && (isNilConst(x.X) || isNilConst(x.Y)) {
-					other := x.X
-					if isNilConst(other) {
-						other = x.Y
-					}
-					if strings.HasSuffix(other.Type().String(), "embeddings.Embedder") {
-						t, f := condEdges(x)
-						nilEdges := f
-						if x.Op == token.EQL {
-							nilEdges = t
-						}
-						for _, e := range nilEdges {
+	semAssumeOf := func(fn *ssa.Function) map[edgeKey]bool {
+		semAssume := map[edgeKey]bool{}
+		if fn == top {
+			for k := range emptyEdges {
+				semAssume[k] = true
+			}
+		}
+		for _, b := range fn.Blocks {
+			for _, in := range b.Instrs {
+				switch x := in.(type) {
+				case *ssa.UnOp:
+					if _, ok := configFieldLoad(x, "FirewallEnabled"); ok {
+						_, f := condEdges(x)
+						for _, e := range f {
 							semAssume[e] = true
 						}
 					}
-					continue
-				}
-				// len(v) > 0 / len(v) == 0 on a []float32
-				var lenSide ssa.Value
-				if c, ok := constInt(x.Y); ok && c == 0 {
-					lenSide = x.X
-				}
-				if lenSide == nil {
-					continue
-				}
-				lc, ok := lenSide.(*ssa.Call)
-				if !ok {
-					continue
-				}
-				if _, ok := isBuiltinCall(lc, "len"); !ok {
-					continue
-				}
-				if sl, ok := lc.Call.Args[0].Type().Underlying().(*types.Slice); !ok || basicKind(sl.Elem()) != types.Float32 {
-					continue
-				}
-				t, f := condEdges(x)
-				switch x.Op {
-				case token.GTR, token.NEQ:
-					for _, e := range f {
-						semAssume[e] = true
+				case *ssa.BinOp:
+					// no embedder configured: nothing to compare with
+					if (x.Op == token.NEQ || x.Op == token.EQL) && (isNilConst(x.X) || isNilConst(x.Y)) {
+						other := x.X
+						if isNilConst(other) {
+							other = x.Y
+						}
+						if strings.HasSuffix(other.Type().String(), "embeddings.Embedder") {
+							t, f := condEdges(x)
+							nilEdges := f
+							if x.Op == token.EQL {
+								nilEdges = t
+							}
+							for _, e := range nilEdges {
+								semAssume[e] = true
+							}
+						}
+						continue
 					}
-				case token.EQL, token.LEQ:
-					for _, e := range t {
-						semAssume[e] = true
+					// len(v) > 0 / len(v) == 0 on a []float32
+					var lenSide ssa.Value
+					if c, ok := constInt(x.Y); ok && c == 0 {
+						lenSide = x.X
 					}
-				}
-			case *ssa.Call:
-				if x.Call.IsInvoke() && x.Call.Method.Name() == "Embed" {
-					for e := range failureEdges(fn, x) {
-						semAssume[e] = true
+					if lenSide == nil {
+						continue
+					}
+					lc, ok := lenSide.(*ssa.Call)
+					if !ok {
+						continue
+					}
+					if _, ok := isBuiltinCall(lc, "len"); !ok {
+						continue
+					}
+					if sl, ok := lc.Call.Args[0].Type().Underlying().(*types.Slice); !ok || basicKind(sl.Elem()) != types.Float32 {
+						continue
+					}
+					t, f := condEdges(x)
+					switch x.Op {
+					case token.GTR, token.NEQ:
+						for _, e := range f {
+							semAssume[e] = true
+						}
+					case token.EQL, token.LEQ:
+						for _, e := range t {
+							semAssume[e] = true
+						}
+					}
+				case *ssa.Call:
+					if x.Call.IsInvoke() && x.Call.Method.Name() == "Embed" {
+						for e := range failureEdges(fn, x) {
+							semAssume[e] = true
+						}
 					}
 				}
 			}
 		}
+		return semAssume
+	}
+	// a gate: a phase function with one bool result ("handled") that contains the check and answers false only behind
+	// the check's not-blocked edge — ServeHTTP going on after `if p.admitByText(…) { return }` has passed the check
+	notHandled := func(in ssa.Instruction) bool {
+		rt, ok := in.(*ssa.Return)
+		return ok && len(rt.Results) == 1 && !isConstBool(retVal(rt, 0), true)
+	}
+	gates := func(check func(ssa.Instruction) bool, assumeOf func(*ssa.Function) map[edgeKey]bool) map[*ssa.Function]bool {
+		out := map[*ssa.Function]bool{}
+		for _, g := range phases[1:] {
+			res := g.Signature.Results()
+			if res.Len() != 1 || !isBoolType(res.At(0).Type()) || len(findInstrs(g, check)) == 0 {
+				continue
+			}
+			if ok, _ := mustPassGuard(g, notHandled, check, blockedVal, false, assumeOf(g)); ok {
+				out[g] = true
+			}
+		}
+		return out
+	}
+	noAssume := func(f *ssa.Function) map[edgeKey]bool {
+		if f == top {
+			return staticAssume
+		}
+		return nil
+	}
+	passes := func(site ssa.Instruction, check func(ssa.Instruction) bool, assumeOf func(*ssa.Function) map[edgeKey]bool) (bool, []ssa.Instruction) {
+		gs := gates(check, assumeOf)
+		guard := func(in ssa.Instruction) bool {
+			if check(in) {
+				return true
+			}
+			c, ok := in.(*ssa.Call)
+			return ok && c.Call.StaticCallee() != nil && gs[c.Call.StaticCallee()] && c.Call.StaticCallee() != in.Parent()
+		}
+		gval := func(in ssa.Instruction) ssa.Value {
+			if check(in) {
+				return blockedVal(in)
+			}
+			return in.(*ssa.Call)
+		}
+		local := func(f *ssa.Function, at ssa.Instruction) (bool, []ssa.Instruction) {
+			return mustPassGuard(f, func(in ssa.Instruction) bool { return in == at }, guard, gval, false, assumeOf(f))
+		}
+		f := site.Parent()
+		ok, wit := local(f, site)
+		if ok || f == top {
+			return ok, wit
+		}
+		// not decided inside the phase function: every call of it must lie behind the check
+		n := 0
+		for _, cs := range callSitesOf(top, f) {
+			n++
+			if ok2, w2 := local(cs.Parent(), cs); !ok2 {
+				return false, w2
+			}
+		}
+		return n > 0, wit
 	}
 	for i, s := range sites {
-		ss := s
-		tgt := func(in ssa.Instruction) bool { return in == ss }
 		kind := "forward"
 		if i >= nf {
 			kind = "cached-reply"
 		}
 		key := fmt.Sprintf("%s#%d", kind, i+1)
-		ok, wit := mustPassGuard(fn, tgt, isStatic, blockedVal, false, staticAssume)
+		ok, wit := passes(s, isStatic, noAssume)
 		r.Cond(ok, "GRD-fw", key+":static", w.Pos(s.Pos()), "reached only behind checkStaticFirewall's not-blocked edge (or with an empty prompt)", "ServeHTTP can hand a non-empty prompt to the upstream model (or answer it from the cache) on a path that never consulted the deny patterns, or on their blocked edge: a prompt that matches a deny pattern reaches the model — e.g. by also containing a pass-through marker", w.witness(wit)...)
-		ok, wit = mustPassGuard(fn, tgt, isSem, blockedVal, false, semAssume)
+		ok, wit = passes(s, isSem, semAssumeOf)
 		r.Cond(ok, "GRD-fw", key+":semantic", w.Pos(s.Pos()), "with the firewall enabled and an embedding available, reached only behind the semantic check's not-blocked edge", "with the firewall enabled and an embedding available ServeHTTP can still hand the prompt to the upstream model (or answer it from the cache) without the nearest-forbidden-prompt check, or on its blocked edge", w.witness(wit)...)
 	}
 	r.Count("upstream_handoffs", nf)
@@ -786,14 +876,100 @@ func ruleGRDcache(w *World, r *Report) {
 		return
 	}
 	fn := w.SSAFunc(fi.Obj)
+	top := fn
 	isCheck := func(in ssa.Instruction) bool { return isModCall(in, proxyPkg, "AIProxy.checkCache") }
+	if len(findInstrs(fn, isCheck)) == 0 { // the answer phase (cache or upstream) may be a function of its own
+		for _, h := range w.extractedHelpers(top) {
+			if len(findInstrs(h, isCheck)) > 0 {
+				fn = h
+				break
+			}
+		}
+	}
 	checks := findInstrs(fn, isCheck)
 	if len(checks) == 0 {
 		r.Und("GRD-cache", "anchor:ServeHTTP:checkCache", w.Pos(fi.Decl.Pos()), "ServeHTTP no longer consults the cache")
 		return
 	}
-	isStream := func(in ssa.Instruction) bool { return isModCall(in, proxyPkg, "checkStreaming") }
-	ok, wit := mustPassGuard(fn, isCheck, isStream, callValue, false, nil)
+	isStreamCall := func(in ssa.Instruction) bool { return isModCall(in, proxyPkg, "checkStreaming") }
+	isStream := isStreamCall
+	streamVal := callValue
+	if fn != top {
+		// the phase function is handed "is this a streaming request" in a field of its parameter record: a read of a bool
+		// field that ServeHTTP fills, at every call, with the answer of checkStreaming
+		fed := func(v ssa.Value) bool {
+			var fa *ssa.FieldAddr
+			var base ssa.Value
+			fidx := -1
+			switch x := v.(type) {
+			case *ssa.Field:
+				base, fidx = x.X, x.Field
+			case *ssa.UnOp:
+				if x.Op == token.MUL {
+					if fa, _ = x.X.(*ssa.FieldAddr); fa != nil {
+						base, fidx = fa.X, fa.Field
+					}
+				}
+			}
+			if fidx < 0 || !isBoolType(v.Type()) {
+				return false
+			}
+			p := paramRecordBase(base)
+			if p == nil || p.Parent() != fn {
+				return false
+			}
+			pi := -1
+			for i, hp := range fn.Params {
+				if hp == p {
+					pi = i
+				}
+			}
+			n := 0
+			for _, cs := range callSitesOf(top, fn) {
+				if pi < 0 || pi >= len(cs.Call.Args) {
+					return false
+				}
+				var rec *ssa.Alloc
+				switch a := cs.Call.Args[pi].(type) {
+				case *ssa.Alloc:
+					rec = a
+				case *ssa.UnOp:
+					rec, _ = a.X.(*ssa.Alloc)
+				}
+				if rec == nil || rec.Referrers() == nil {
+					return false
+				}
+				okSite := false
+				for _, ref := range *rec.Referrers() {
+					rfa, isFA := ref.(*ssa.FieldAddr)
+					if !isFA || rfa.Field != fidx || rfa.Referrers() == nil {
+						continue
+					}
+					for _, r2 := range *rfa.Referrers() {
+						if st, isSt := r2.(*ssa.Store); isSt && st.Addr == ssa.Value(rfa) {
+							okSite = false
+							for _, rt := range append(valueRoots(st.Val), st.Val) {
+								if ci, isI := rt.(ssa.Instruction); isI && isStreamCall(ci) {
+									okSite = true
+								}
+							}
+						}
+					}
+				}
+				if !okSite {
+					return false
+				}
+				n++
+			}
+			return n > 0
+		}
+		isStream = func(in ssa.Instruction) bool {
+			v, ok := in.(ssa.Value)
+			return ok && fed(v)
+		}
+		streamVal = func(in ssa.Instruction) ssa.Value { return in.(ssa.Value) }
+	}
+	ok, wit := mustPassGuard(fn, isCheck, isStream, streamVal, false, nil)
 	r.Cond(ok, "GRD-cache", "ServeHTTP:cache-only-non-streaming", w.Pos(checks[0].Pos()), "the cache is consulted only on the stream==false edge", "ServeHTTP consults the cache for a streaming request: a client that asked for a stream gets a stored non-stream body", w.witness(wit)...)
 	isReply := func(in ssa.Instruction) bool {
 		c, ok := in.(*ssa.Call)
